@@ -5,8 +5,9 @@
    * items of different fixed-domain kinds never coincide (the domain strings differ); the one exception is
      hash.BytesWithDomain, whose domain is chosen by the caller;
    * composition: equal streams => equal VALUE sequences (element-wise, modulo that exception);
-   * cmp config.Config.WriteTo writes its parts raw into ONE item: injective when all Paillier moduli have the
-     same byte length (what paillier.ValidateN guarantees), refuted by a witness when they do not. *)
+   * cmp config.Config.WriteTo writes its parts into ONE item; after the repair (length-prefixed RID and Paillier
+     modulus) it is injective whatever the sizes; Pedersen parameters are written in fixed width or refused.
+     The encoders before the repairs ([enc_hval_v0]) are kept with their collision witnesses as regressions. *)
 From Coq Require Import String.
 From Coq Require Import List NArith ZArith Bool Lia.
 From MPS Require Import Model.Bytes Model.Framing Proofs.BytesProofs Proofs.FramingProofs.
@@ -133,25 +134,81 @@ Proof.
   apply be_bytes_inj in E1, E2, E3; try assumption. now subst.
 Qed.
 
-Definition wf_pub (p : cmp_public) : Prop := wf_public p = true.
-
-Lemma wf_public_parts p : wf_public p = true ->
-  wf_cpoint (cp_ecdsa p) = true /\ wf_cpoint (cp_elgamal p) = true /\
-  cp_ped_n p < 256 ^ N.of_nat 256 /\ cp_ped_s p < 256 ^ N.of_nat 256 /\ cp_ped_t p < 256 ^ N.of_nat 256.
+Lemma pedersen_data_opt_some n s t d : pedersen_data_opt n s t = Some d ->
+  d = pedersen_data n s t /\ n < 256 ^ N.of_nat 256 /\ s < 256 ^ N.of_nat 256 /\ t < 256 ^ N.of_nat 256.
 Proof.
-  unfold wf_public. rewrite !andb_true_iff. intros [[[[A B] C] D] E].
-  repeat split; try assumption; now apply lt_2048.
+  unfold pedersen_data_opt. destruct (lt_pow2 n 2048 && lt_pow2 s 2048 && lt_pow2 t 2048) eqn:R; [|discriminate].
+  intro E. apply Some_inj in E. apply andb_true_iff in R as [R Rt]. apply andb_true_iff in R as [Rn Rs].
+  repeat split; [now symmetry | now apply lt_2048 ..].
 Qed.
 
-(* config.Public.WriteTo: two fixed-width points, a minimal-width modulus, three fixed-width integers.
-   Injective WITHOUT any assumption on the modulus: its width is the total length minus 66 + 768. *)
-Theorem public_data_inj p q :
-  wf_public p = true -> wf_public q = true -> public_data p = public_data q -> p = q.
+(* after the repair: Pedersen parameters are written or refused; no range clause is needed for injectivity *)
+Theorem pedersen_data_opt_inj n s t n' s' t' d :
+  pedersen_data_opt n s t = Some d -> pedersen_data_opt n' s' t' = Some d -> n = n' /\ s = s' /\ t = t'.
 Proof.
-  intros Wp Wq E.
-  destruct (wf_public_parts _ Wp) as (We & Wg & Hn & Hs & Ht).
-  destruct (wf_public_parts _ Wq) as (We' & Wg' & Hn' & Hs' & Ht').
-  destruct p as [e g pn n s t], q as [e' g' pn' n' s' t']. unfold public_data in E. cbn [cp_ecdsa cp_elgamal cp_paillier cp_ped_n cp_ped_s cp_ped_t] in *.
+  intros E1 E2. apply pedersen_data_opt_some in E1 as (-> & Hn & Hs & Ht), E2 as (E & Hn' & Hs' & Ht').
+  now apply pedersen_data_inj.
+Qed.
+
+(* a modulus whose byte length fits the 8-byte length prefix (any modulus that exists in memory) *)
+Definition modulus_small (p : cmp_public) : Prop := len (be_min (cp_paillier p)) < 256 ^ N.of_nat 8.
+
+Lemma wf_public_parts p : wf_public p = true ->
+  wf_cpoint (cp_ecdsa p) = true /\ wf_cpoint (cp_elgamal p) = true /\ modulus_small p.
+Proof.
+  unfold wf_public, modulus_small, len. rewrite !andb_true_iff, be_min_length. intros [[A B] C].
+  apply N.ltb_lt in C. now repeat split.
+Qed.
+
+Lemma ped_in_range_parts p : ped_in_range p = true ->
+  cp_ped_n p < 256 ^ N.of_nat 256 /\ cp_ped_s p < 256 ^ N.of_nat 256 /\ cp_ped_t p < 256 ^ N.of_nat 256.
+Proof.
+  unfold ped_in_range. rewrite !andb_true_iff. intros [[A B] C]. repeat split; now apply lt_2048.
+Qed.
+
+(* config.Public.WriteTo after the repair is PREFIX-FREE: what follows a record cannot be confused with its end.
+   No assumption on the size of the Paillier modulus or of the Pedersen values. *)
+Theorem public_data_prefix_free p q dp dq r1 r2 :
+  wf_public p = true -> wf_public q = true ->
+  public_data p = Some dp -> public_data q = Some dq ->
+  dp ++ r1 = dq ++ r2 -> p = q /\ r1 = r2.
+Proof.
+  intros Wp Wq Dp Dq E.
+  destruct (wf_public_parts _ Wp) as (We & Wg & Mp). destruct (wf_public_parts _ Wq) as (We' & Wg' & Mq).
+  unfold modulus_small in Mp, Mq.
+  destruct p as [e g pn n s t], q as [e' g' pn' n' s' t']. unfold public_data in Dp, Dq.
+  cbn [cp_ecdsa cp_elgamal cp_paillier cp_ped_n cp_ped_s cp_ped_t] in *.
+  destruct (pedersen_data_opt n s t) as [pd|] eqn:P1; [|discriminate].
+  destruct (pedersen_data_opt n' s' t') as [pd'|] eqn:P2; [|discriminate].
+  apply Some_inj in Dp, Dq. subst dp dq. rewrite <- !app_assoc in E.
+  apply app_eq_length in E as [E1 E]; [| now rewrite !point_bytes_length].
+  apply app_eq_length in E as [E2 E]; [| now rewrite !point_bytes_length].
+  apply app_eq_length in E as [E3 E]; [| unfold be64; now rewrite !be_bytes_length].
+  apply be_bytes_inj in E3; try assumption. apply len_lt_inj in E3.
+  apply app_eq_length in E as [E4 E]; [| assumption].
+  apply pedersen_data_opt_some in P1 as (-> & Hn & Hs & Ht), P2 as (-> & Hn' & Hs' & Ht').
+  apply app_eq_length in E as [E5 E]; [| now rewrite !pedersen_data_length].
+  apply point_bytes_inj in E1, E2; try assumption. apply be_min_inj in E4.
+  apply pedersen_data_inj in E5 as (-> & -> & ->); try assumption. now subst.
+Qed.
+
+Theorem public_data_inj p q d :
+  wf_public p = true -> wf_public q = true ->
+  public_data p = Some d -> public_data q = Some d -> p = q.
+Proof.
+  intros Wp Wq Dp Dq.
+  now destruct (public_data_prefix_free p q d d [] [] Wp Wq Dp Dq eq_refl).
+Qed.
+
+(* the pre-fix encoder (raw concatenation): injective on its own, given the Pedersen ranges *)
+Theorem public_data_v0_inj p q :
+  wf_public p = true -> wf_public q = true -> ped_in_range p = true -> ped_in_range q = true ->
+  public_data_v0 p = public_data_v0 q -> p = q.
+Proof.
+  intros Wp Wq Rp Rq E.
+  destruct (wf_public_parts _ Wp) as (We & Wg & _). destruct (wf_public_parts _ Wq) as (We' & Wg' & _).
+  destruct (ped_in_range_parts _ Rp) as (Hn & Hs & Ht). destruct (ped_in_range_parts _ Rq) as (Hn' & Hs' & Ht').
+  destruct p as [e g pn n s t], q as [e' g' pn' n' s' t']. unfold public_data_v0 in E. cbn [cp_ecdsa cp_elgamal cp_paillier cp_ped_n cp_ped_s cp_ped_t] in *.
   apply app_eq_length in E as [E1 E]; [| now rewrite !point_bytes_length].
   apply app_eq_length in E as [E2 E]; [| now rewrite !point_bytes_length].
   apply app_eq_length_r in E as [E3 E4]; [| now rewrite !pedersen_data_length].
@@ -159,9 +216,9 @@ Proof.
   apply pedersen_data_inj in E4 as (-> & -> & ->); try assumption. now subst.
 Qed.
 
-Lemma public_data_length p : length (public_data p) = (66 + byte_len (cp_paillier p) + 768)%nat.
+Lemma public_data_v0_length p : length (public_data_v0 p) = (66 + byte_len (cp_paillier p) + 768)%nat.
 Proof.
-  unfold public_data. rewrite !app_length, !point_bytes_length, be_min_length, pedersen_data_length. lia.
+  unfold public_data_v0. rewrite !app_length, !point_bytes_length, be_min_length, pedersen_data_length. lia.
 Qed.
 
 (* --- Exponent --- *)
@@ -261,31 +318,94 @@ Qed.
 (* ------------------------------------------------------------------ *)
 (* 3. config.Config.WriteTo                                            *)
 
-Definition pub_w (w : nat) (p : cmp_public) : Prop :=
-  wf_public p = true /\ byte_len (cp_paillier p) = w.
+Definition pub_ok (p : cmp_public) : Prop := wf_public p = true.
 
-Lemma wf_config_w_spec w c : wf_config_w w c = true ->
-  (0 <= cc_threshold c < 4294967296)%Z /\ keys_sorted (map fst (cc_public c)) = true /\
-  ids_small_P (map fst (cc_public c)) /\ Forall (pub_w w) (map snd (cc_public c)).
+Lemma publics_data_prefix_free es1 : forall es2 d1 d2 r1 r2,
+  Forall pub_ok (map snd es1) -> Forall pub_ok (map snd es2) -> length es1 = length es2 ->
+  publics_data es1 = Some d1 -> publics_data es2 = Some d2 ->
+  d1 ++ r1 = d2 ++ r2 -> map snd es1 = map snd es2 /\ r1 = r2.
 Proof.
-  unfold wf_config_w. rewrite !andb_true_iff. intros [[[[T0 T1] S] I] F].
-  apply Z.leb_le in T0. apply Z.ltb_lt in T1. repeat split; try assumption; try (now apply ids_small_spec).
-  apply Forall_map. apply forallb_Forall in F. eapply Forall_impl; [|exact F]. cbn beta.
-  intros e H. apply andb_true_iff in H as [H1 H2]. apply Nat.eqb_eq in H2. now split.
+  induction es1 as [|e1 es1 IH]; intros [|e2 es2] d1 d2 r1 r2 F1 F2 L D1 D2 E; try discriminate.
+  - cbn [publics_data] in D1, D2. apply Some_inj in D1, D2. subst. now split.
+  - cbn [publics_data] in D1, D2. cbn [map] in F1, F2.
+    inversion F1 as [|? ? W1 F1']; inversion F2 as [|? ? W2 F2']; subst.
+    destruct (public_data (snd e1)) as [a1|] eqn:P1; [|discriminate].
+    destruct (publics_data es1) as [b1|] eqn:Q1; [|discriminate].
+    destruct (public_data (snd e2)) as [a2|] eqn:P2; [|discriminate].
+    destruct (publics_data es2) as [b2|] eqn:Q2; [|discriminate].
+    apply Some_inj in D1, D2. subst d1 d2. rewrite <- !app_assoc in E.
+    destruct (public_data_prefix_free _ _ _ _ _ _ W1 W2 P1 P2 E) as [Ep E'].
+    injection L as L. destruct (IH es2 b1 b2 r1 r2 F1' F2' L eq_refl Q2 E') as [Em Er].
+    split; [|assumption]. cbn [map]. now rewrite Ep, Em.
 Qed.
 
-(* Injectivity of the raw concatenation, for any common width [w] of the Paillier moduli.
-   Hypotheses used: threshold in uint32 range; keys strictly sorted (the list is the canonical form of the map);
-   identifier lengths and count below 2^64; points and Pedersen values in range; all Paillier moduli of BOTH
-   configs [w] bytes long.  The RID may have any length (it is determined by the total length). *)
-Theorem config_data_inj w c1 c2 d :
-  wf_config_w w c1 = true -> wf_config_w w c2 = true ->
+Lemma wf_config_spec c : wf_config c = true ->
+  (0 <= cc_threshold c < 4294967296)%Z /\ keys_sorted (map fst (cc_public c)) = true /\
+  ids_small_P (map fst (cc_public c)) /\ Forall pub_ok (map snd (cc_public c)) /\
+  match cc_rid c with Some rid => len rid < 256 ^ N.of_nat 8 | None => True end.
+Proof.
+  unfold wf_config. rewrite !andb_true_iff. intros [[[[[T0 T1] S] I] F] R].
+  apply Z.leb_le in T0. apply Z.ltb_lt in T1. repeat split; try assumption; try (now apply ids_small_spec).
+  - apply Forall_map. now apply forallb_Forall in F.
+  - destruct (cc_rid c); [now apply N.ltb_lt in R | exact Logic.I].
+Qed.
+
+(* Injectivity of config.Config.WriteTo after the repair -- UNCONDITIONAL in the sizes: no common width of the Paillier
+   moduli, no Pedersen range, RID of any length.  Hypotheses left: threshold in uint32 range; keys strictly sorted (the
+   list is the canonical form of the map); point coordinates in range; lengths below 2^64. *)
+Theorem config_data_inj c1 c2 d :
+  wf_config c1 = true -> wf_config c2 = true ->
   config_data c1 = Some d -> config_data c2 = Some d -> c1 = c2.
 Proof.
   intros W1 W2 D1 D2.
-  destruct (wf_config_w_spec _ _ W1) as ([T1a T1b] & S1 & I1 & F1).
-  destruct (wf_config_w_spec _ _ W2) as ([T2a T2b] & S2 & I2 & F2).
+  destruct (wf_config_spec _ W1) as ([T1a T1b] & S1 & I1 & G1 & R1).
+  destruct (wf_config_spec _ W2) as ([T2a T2b] & S2 & I2 & G2 & R2).
   destruct c1 as [t1 [rid1|] p1], c2 as [t2 [rid2|] p2]; unfold config_data in D1, D2;
+    cbn [cc_threshold cc_rid cc_public] in *; try discriminate.
+  rewrite (sort_entries_sorted _ S1) in D1. rewrite (sort_entries_sorted _ S2) in D2.
+  destruct (publics_data p1) as [b1|] eqn:Q1; [|discriminate].
+  destruct (publics_data p2) as [b2|] eqn:Q2; [|discriminate].
+  pose proof (Some_inj _ _ (eq_trans D1 (eq_sym D2))) as E. clear D1 D2 d.
+  apply app_eq_length in E as [Et E]; [| unfold be32; now rewrite !be_bytes_length].
+  rewrite !Z.mod_small in Et by lia.
+  apply be_bytes_inj in Et; [| change (256 ^ N.of_nat 4) with 4294967296; lia ..].
+  apply Z2N.inj in Et; try lia. subst t2.
+  apply idslice_data_prefix_free in E as [Ek E]; try assumption.
+  apply app_eq_length in E as [El E]; [| unfold be64; now rewrite !be_bytes_length].
+  apply be_bytes_inj in El; try assumption. apply len_lt_inj in El.
+  apply app_eq_length in E as [Er E]; [| assumption]. subst rid2.
+  assert (L : length p1 = length p2).
+  { rewrite <- (map_length fst p1), <- (map_length fst p2). now rewrite Ek. }
+  rewrite <- (app_nil_r b1), <- (app_nil_r b2) in E.
+  destruct (publics_data_prefix_free p1 p2 b1 b2 [] [] G1 G2 L Q1 Q2 E) as [Es _].
+  f_equal. now apply split_eq.
+Qed.
+
+(* ---- the pre-fix encoder: injective only for one common width of the Paillier moduli ---- *)
+
+Definition pub_w (w : nat) (p : cmp_public) : Prop :=
+  wf_public p = true /\ ped_in_range p = true /\ byte_len (cp_paillier p) = w.
+
+Lemma wf_config_w_spec w c : wf_config_w w c = true ->
+  wf_config c = true /\ Forall (pub_w w) (map snd (cc_public c)).
+Proof.
+  unfold wf_config_w. rewrite andb_true_iff. intros [W F]. split; [assumption|].
+  destruct (wf_config_spec _ W) as (_ & _ & _ & Fw & _). unfold pub_ok in Fw.
+  apply Forall_map. apply forallb_Forall in F. rewrite Forall_map in Fw.
+  apply Forall_forall. intros e He. pose proof (proj1 (Forall_forall _ _) F e He) as H. cbn beta in H.
+  pose proof (proj1 (Forall_forall _ _) Fw e He) as Hw. cbn beta in Hw.
+  apply andb_true_iff in H as [H1 H2]. apply Nat.eqb_eq in H2. now repeat split.
+Qed.
+
+Theorem config_data_v0_inj w c1 c2 d :
+  wf_config_w w c1 = true -> wf_config_w w c2 = true ->
+  config_data_v0 c1 = Some d -> config_data_v0 c2 = Some d -> c1 = c2.
+Proof.
+  intros W1 W2 D1 D2.
+  destruct (wf_config_w_spec _ _ W1) as (V1 & F1). destruct (wf_config_w_spec _ _ W2) as (V2 & F2).
+  destruct (wf_config_spec _ V1) as ([T1a T1b] & S1 & I1 & _ & _).
+  destruct (wf_config_spec _ V2) as ([T2a T2b] & S2 & I2 & _ & _).
+  destruct c1 as [t1 [rid1|] p1], c2 as [t2 [rid2|] p2]; unfold config_data_v0 in D1, D2;
     cbn [cc_threshold cc_rid cc_public] in *; try discriminate.
   rewrite (sort_entries_sorted _ S1) in D1. rewrite (sort_entries_sorted _ S2) in D2.
   pose proof (Some_inj _ _ (eq_trans D1 (eq_sym D2))) as E. clear D1 D2 d.
@@ -297,12 +417,12 @@ Proof.
   rewrite !flat_map_snd in E.
   assert (L : length (map snd p1) = length (map snd p2)).
   { rewrite !map_length. rewrite <- (map_length fst p1), <- (map_length fst p2). now rewrite Ek. }
-  assert (Hk : forall a, pub_w w a -> length (public_data a) = (66 + w + 768)%nat).
-  { intros a [_ Ha]. now rewrite public_data_length, Ha. }
+  assert (Hk : forall a, pub_w w a -> length (public_data_v0 a) = (66 + w + 768)%nat).
+  { intros a (_ & _ & Ha). now rewrite public_data_v0_length, Ha. }
   apply app_eq_length_r in E as [Er Ep].
   2:{ rewrite (flat_map_length_fixed _ _ _ _ Hk F1), (flat_map_length_fixed _ _ _ _ Hk F2). now rewrite L. }
-  apply (flat_map_fixed_inj public_data (pub_w w) _ Hk) in Ep; try assumption.
-  2:{ intros a b [Wa _] [Wb _]. now apply public_data_inj. }
+  apply (flat_map_fixed_inj public_data_v0 (pub_w w) _ Hk) in Ep; try assumption.
+  2:{ intros a b (Wa & Ra & _) (Wb & Rb & _). now apply public_data_v0_inj. }
   subst rid2. f_equal. now apply split_eq.
 Qed.
 
@@ -386,9 +506,10 @@ Proof.
     apply be_bytes_inj in E; [now subst | now apply lt_4096 ..].
   - (* Paillier public key *) pose proof (some_item_dat _ _ _ _ (eq_trans E1 (eq_sym E2))) as E.
     apply be_min_inj in E. now subst.
-  - (* Pedersen *) pose proof (some_item_dat _ _ _ _ (eq_trans E1 (eq_sym E2))) as E.
-    apply andb_true_iff in W1 as [W1 Wt], W2 as [W2 Wt']. apply andb_true_iff in W1 as [Wn Ws], W2 as [Wn' Ws'].
-    apply (pedersen_data_inj n s t n0 s0 t0) in E as (-> & -> & ->); try (now apply lt_2048). reflexivity.
+  - (* Pedersen: written or refused, no range clause *)
+    pose proof (opt_item_inj _ _ _ _ E1 E2) as E.
+    destruct (pedersen_data_opt n s t) as [d|] eqn:P1; [|discriminate E1]. symmetry in E.
+    destruct (pedersen_data_opt_inj _ _ _ _ _ _ _ P1 E) as (-> & -> & ->). reflexivity.
   - (* Exponent *) pose proof (some_item_dat _ _ _ _ (eq_trans E1 (eq_sym E2))) as E.
     apply exponent_data_inj in E as [-> ->]; [reflexivity | |].
     + destruct coeffs as [l|]; [|exact I]. apply andb_true_iff in W1 as [A B]. split; [now apply forallb_Forall | now apply N.ltb_lt].
@@ -400,13 +521,13 @@ Proof.
   - (* Schnorr commitment *) pose proof (some_item_dat _ _ _ _ (eq_trans E1 (eq_sym E2))) as E.
     apply point_bytes_inj in E; try assumption. now subst.
   - (* config.Public *) destruct p as [p|]; [|discriminate]. destruct p0 as [p0|]; [|discriminate].
-    pose proof (some_item_dat _ _ _ _ (eq_trans E1 (eq_sym E2))) as E.
-    apply public_data_inj in E; try assumption. now subst.
+    pose proof (opt_item_inj _ _ _ _ E1 E2) as E.
+    destruct (public_data p) as [d|] eqn:P1; [|discriminate E1]. symmetry in E.
+    f_equal. f_equal. now apply (public_data_inj p p0 d).
   - (* config.Config *) destruct c as [c|]; [|discriminate]. destruct c0 as [c0|]; [|discriminate].
-    destruct (config_data c) as [d|] eqn:D1; [|discriminate]. destruct (config_data c0) as [d0|] eqn:D2; [|discriminate].
-    cbn [opt_item] in E1, E2.
-    pose proof (some_item_dat _ _ _ _ (eq_trans E1 (eq_sym E2))) as E. subst d0.
-    f_equal. f_equal. now apply (config_data_inj 256 c c0 d).
+    pose proof (opt_item_inj _ _ _ _ E1 E2) as E.
+    destruct (config_data c) as [d|] eqn:D1; [|discriminate E1]. symmetry in E.
+    f_equal. f_equal. now apply (config_data_inj c c0 d).
 Qed.
 
 (* ------------------------------------------------------------------ *)
@@ -601,13 +722,11 @@ Proof.
 Qed.
 
 (* ------------------------------------------------------------------ *)
-(* 7. config.Config.WriteTo WITHOUT the width guarantee: refuted       *)
+(* 7. regression: the encoders BEFORE the repairs (enc_hval_v0) collide; the repaired ones separate the same values *)
 
-(* everything [wf_config] asks for, except that the Paillier moduli have one common byte length *)
-Definition wf_config_loose (c : cmp_config) : bool :=
-  (0 <=? cc_threshold c)%Z && (cc_threshold c <? 4294967296)%Z
-  && keys_sorted (map fst (cc_public c)) && ids_small (map fst (cc_public c))
-  && forallb (fun e => wf_public (snd e)) (cc_public c).
+Definition item_ok_v0 (v : hval) : bool :=
+  match enc_hval_v0 v with Some i => wf_item i | None => false end.
+Definition peds_in_range (c : cmp_config) : bool := forallb (fun e => ped_in_range (snd e)) (cc_public c).
 
 (* x coordinates of G and 2G (both have even y): real curve points, so that the witness can be replayed on the Go types *)
 Definition wit_gx : N := 0x79BE667EF9DCBBAC55A06295CE870B07029BFCDB2DCE28D959F2815B16F81798.
@@ -630,21 +749,42 @@ Definition wit_config_b : cmp_config :=
                          (11 * wit_sh + 1) (12 * wit_sh + 1) (13 * wit_sh + wit_encG));
       ([98], mkCmpPublic (wit_g2x, false) (wit_gx, false) 9 14 15 16) ].
 
-Theorem config_inj_without_widths_refuted :
-  exists c1 c2 : cmp_config,
-    c1 <> c2 /\
-    wf_config_loose c1 = true /\ wf_config_loose c2 = true /\
-    item_ok (HCmpConfig (Some c1)) = true /\ item_ok (HCmpConfig (Some c2)) = true /\
-    cc_threshold c1 = cc_threshold c2 /\ cc_rid c1 = cc_rid c2 /\ map fst (cc_public c1) = map fst (cc_public c2) /\
-    enc_hval (HCmpConfig (Some c1)) = enc_hval (HCmpConfig (Some c2)) /\ enc_hval (HCmpConfig (Some c1)) <> None.
+Lemma wit_configs_differ : wit_config_a <> wit_config_b.
 Proof.
-  exists wit_config_a, wit_config_b. split; [|repeat split; try (vm_compute; reflexivity)].
-  - intro E. apply (f_equal (fun c => map (fun e => cp_paillier (snd e)) (cc_public c))) in E.
-    vm_compute in E. discriminate E.
-  - vm_compute. discriminate.
+  intro E. apply (f_equal (fun c => map (fun e => cp_paillier (snd e)) (cc_public c))) in E.
+  vm_compute in E. discriminate E.
 Qed.
 
-(* with a free RID length a single party is enough: one byte string, two readings *)
+(* pre-fix Config.WriteTo: two different well-formed configs (same threshold, parties, 32-byte RID, all ranges
+   respected), one byte string *)
+Theorem config_v0_refuted :
+  exists c1 c2 : cmp_config,
+    c1 <> c2 /\
+    wf_config c1 = true /\ wf_config c2 = true /\ peds_in_range c1 = true /\ peds_in_range c2 = true /\
+    item_ok_v0 (HCmpConfig (Some c1)) = true /\
+    cc_threshold c1 = cc_threshold c2 /\ cc_rid c1 = cc_rid c2 /\ map fst (cc_public c1) = map fst (cc_public c2) /\
+    enc_hval_v0 (HCmpConfig (Some c1)) = enc_hval_v0 (HCmpConfig (Some c2)).
+Proof.
+  exists wit_config_a, wit_config_b. split; [exact wit_configs_differ|].
+  repeat split; vm_compute; reflexivity.
+Qed.
+
+(* ... and the repaired Config.WriteTo writes them differently *)
+Theorem config_witness_repaired :
+  wf_hval (HCmpConfig (Some wit_config_a)) = true /\ wf_hval (HCmpConfig (Some wit_config_b)) = true /\
+  enc_hval (HCmpConfig (Some wit_config_a)) <> None /\
+  enc_hval (HCmpConfig (Some wit_config_a)) <> enc_hval (HCmpConfig (Some wit_config_b)).
+Proof.
+  repeat split; try (vm_compute; reflexivity).
+  - vm_compute. discriminate.
+  - intro E. destruct (enc_hval (HCmpConfig (Some wit_config_a))) as [i|] eqn:Ea; [|vm_compute in Ea; discriminate Ea].
+    symmetry in E. apply wit_configs_differ.
+    assert (V : HCmpConfig (Some wit_config_a) = HCmpConfig (Some wit_config_b)).
+    { apply (value_inj _ _ i); try assumption; try reflexivity; vm_compute; reflexivity. }
+    congruence.
+Qed.
+
+(* with a free RID length a single party was enough: one byte string, two readings *)
 Definition wit1_config_a : cmp_config :=
   mkCmpConfig 0 (Some (repeat 7 32))
     [ ([97], mkCmpPublic (wit_gx, false) (wit_g2x, false) (wit_encG * 256 + 9) 14 15 16) ].
@@ -652,11 +792,13 @@ Definition wit1_config_b : cmp_config :=
   mkCmpConfig 0 (Some (repeat 7 32 ++ point_bytes (wit_gx, false)))
     [ ([97], mkCmpPublic (wit_g2x, false) (wit_gx, false) 9 14 15 16) ].
 
-Theorem config_inj_without_widths_one_party_refuted :
+Theorem config_v0_one_party_refuted :
   exists c1 c2 : cmp_config,
-    c1 <> c2 /\ wf_config_loose c1 = true /\ wf_config_loose c2 = true /\
+    c1 <> c2 /\ wf_config c1 = true /\ wf_config c2 = true /\ peds_in_range c1 = true /\ peds_in_range c2 = true /\
     length (cc_public c1) = 1%nat /\ length (cc_public c2) = 1%nat /\
-    enc_hval (HCmpConfig (Some c1)) = enc_hval (HCmpConfig (Some c2)) /\ enc_hval (HCmpConfig (Some c1)) <> None.
+    item_ok_v0 (HCmpConfig (Some c1)) = true /\
+    enc_hval_v0 (HCmpConfig (Some c1)) = enc_hval_v0 (HCmpConfig (Some c2)) /\
+    enc_hval (HCmpConfig (Some c1)) <> enc_hval (HCmpConfig (Some c2)).
 Proof.
   exists wit1_config_a, wit1_config_b. split; [|repeat split; try (vm_compute; reflexivity)].
   - intro E. apply (f_equal (fun c => map (fun e => cp_paillier (snd e)) (cc_public c))) in E.
@@ -664,10 +806,12 @@ Proof.
   - vm_compute. discriminate.
 Qed.
 
-(* the range clauses of [wf_hval] are needed: fixed-width fields are written with FillBytes, which silently drops the
-   bytes that do not fit -- a value and its residue mod 256^width are written identically *)
-Theorem fixed_width_truncation_refuted :
-  exists v1 v2, v1 <> v2 /\ same_kind v1 v2 /\ item_ok v1 = true /\ item_ok v2 = true /\ enc_hval v1 = enc_hval v2 /\ enc_hval v1 <> None.
+(* pre-fix Parameters.WriteTo: FillBytes into a fixed-width buffer silently drops the bytes that do not fit -- a value
+   and its residue mod 256^width were written identically; the repaired WriteTo refuses the oversized value *)
+Theorem pedersen_v0_truncation_refuted :
+  exists v1 v2, v1 <> v2 /\ same_kind v1 v2 /\ item_ok_v0 v1 = true /\
+                enc_hval_v0 v1 = enc_hval_v0 v2 /\
+                enc_hval v1 <> None /\ enc_hval v2 = None.
 Proof.
   exists (HPedersen 5 1 1), (HPedersen (5 + 2 ^ 2048) 1 1). split; [|repeat split; try (vm_compute; reflexivity)].
   - intro E. apply (f_equal (fun v => match v with HPedersen n _ _ => n | _ => 0 end)) in E.
